@@ -16,7 +16,8 @@ type Col struct {
 	Default string // SQL text of the default ("" = none); expressions are parenthesised
 	Gen     string // generation expression ("" = plain column)
 	Stored  bool   // STORED (else VIRTUAL)
-	GenDep  string // the column the generation expression reads
+	GenDep  string // the (plain) column the generation expression ultimately reads
+	GenVia  string // a generated column the expression reads directly, if any
 }
 
 type Idx struct {
